@@ -22,7 +22,7 @@ EXPLANATION = (
     "excepted), directory listings reach output only through sorted(), and no clock/random/id()/hash() call is "
     "reachable from a per-file scan; R07g the name of a temporary file never flows into a presentation sink, an "
     "error message or the scan context (the display name travels separately); R07h (=R13b) every rule's per-file state is reset on every path of starting_new_file, so a scan prints the same thing whatever was scanned before it in the process. "
-    "R07i no run-time text is ever used as a str.format / % template (a brace in document text would raise inside the reporter or rewrite the line); R07j may-be-None dataflow (as R01d) over every rule and the plugin manager: no unguarded dereference of a parameter / local that may be None. Not decided: that reported columns are in range, that reports are unique per (line, column, rule), and that a "
+    "R07i no run-time text is ever used as a str.format / % template (a brace in document text would raise inside the reporter or rewrite the line); R07j may-be-None dataflow (as R01d) over every rule and the plugin manager: no unguarded dereference of a parameter / local that may be None. R07k in the reporting API the line and the column handed on are read from the same token and field pair on every path; R07l a rule reports at the token it was just handed, without computing a position of its own, only where the path has established the kind of token (or excluded the end of the stream, whose position is one line past the end, column 0). Not decided: that reported columns are in range in general, that reports are unique per (line, column, rule), and that a "
     "rule's own code raises no exception — those depend on run-time values."
 )
 ASSUMPTIONS = [
